@@ -58,8 +58,10 @@ def scen_props(M, which):
         params = Seq(2 * N, lambda r: [Par(r, c) for c in range(M)], 'ndarray')
         H = user_callable('H_of_params', raises=False)
         pd_user = user_callable('user_prop_derivs', raises=False) if which == 'derivs-user' else None
-        o = mkobj(repo, 'system.ParameterizedSystem', _hamiltonian=H, _gammas=[], _lindblad_operators=[],
-                  _propagator_derivatives=pd_user, _number_of_parameters=M, _dimension=Int('dim'))
+        ip.ghost['M'] = M
+        o = mkobj_init(ip, repo, 'system.ParameterizedSystem', args=[H], kwargs={'propagator_derivatives': pd_user},
+                       _hamiltonian=H, _gammas=[], _lindblad_operators=[], _propagator_derivatives=pd_user, _number_of_parameters=M,
+                       _dimension=Int('dim'))
         return {'o': o, 'params': params, 'step': step, 'dt': dt, 'M': M, 'which': which, 'inputs': {'step': step, 'N': N}}
     return scen
 
@@ -81,6 +83,27 @@ def props_registry():
         return pd
     R.models['system._liouvillian'] = m_liou
     R.models['system.ParameterizedSystem.halfstep_propagator_derivative'] = m_halfstep
+
+    # helpers of the constructor (argument inspection, trial evaluation of the Hamiltonian)
+    @model
+    def m_argspec(ip, args, kw):
+        return Obj('ArgSpec', {'args': ['p%d' % i for i in range(ip.ghost['M'])]})
+
+    @model
+    def m_ident(ip, args, kw):
+        return args[0]
+
+    @model
+    def m_noop(ip, args, kw):
+        return None
+
+    @model
+    def m_check_gl(ip, args, kw):
+        return [], []
+    R.lib_models['inspect.getfullargspec'] = m_argspec
+    R.lib_models['numpy.vectorize'] = m_ident
+    R.models['system._check_hamiltonian'] = m_noop
+    R.models['system._check_parameterized_gammas_lindblad_operators'] = m_check_gl
     return R
 
 
@@ -259,6 +282,14 @@ def scen_hist(M):
 
 
 def invoke_hist(ip, repo, fref, ctx):
+    return _invoke_hist(ip, repo, ctx, 'get_propagator_derivatives')
+
+
+def invoke_hist_props(ip, repo, fref, ctx):
+    return _invoke_hist(ip, repo, ctx, 'get_propagators')
+
+
+def _invoke_hist(ip, repo, ctx, accessor):
     M, N = ctx['M'], ctx['N']
     H = user_callable('H_of_params', raises=False)
 
@@ -271,7 +302,7 @@ def invoke_hist(ip, repo, fref, ctx):
     dt1, dt2 = Real('dt_earlier'), Real('dt')
     s1, s2 = Int('step_earlier'), Int('step')
     ip.add_pc(z3.And(s1 >= 0, s1 < N, s2 >= 0, s2 < N))
-    g = repo.resolve('system.ParameterizedSystem.get_propagator_derivatives')
+    g = repo.resolve('system.ParameterizedSystem.' + accessor)
     ip.call(ip.call(g, [used, dt1, p1], {}), [s1], {})          # an earlier gradient evaluation on another time grid
     a = ip.call(ip.call(g, [used, dt2, p2], {}), [s2], {})
     b = ip.call(ip.call(g, [fresh_, dt2, p2], {}), [s2], {})
@@ -285,6 +316,13 @@ def post_hist(ip, ctx, out):
     ip.prove('param/derivatives-independent-of-history', z3.And(veq(a[0], b[0]), veq(a[1], b[1])))
 
 
+def post_hist_props(ip, ctx, out):
+    if not expect_no_other_exception(ip, out):
+        return
+    a, b = out.value
+    ip.prove('param/propagators-independent-of-history', z3.And(veq(a[0], b[0]), veq(a[1], b[1])))
+
+
 _t1 = targets
 
 
@@ -294,4 +332,6 @@ def targets(tier='quick'):
     for M in (1, 2):
         T.append(Target('param/history[M=%d]' % M, 'system.ParameterizedSystem.get_propagator_derivatives', scen_hist(M), post_hist, RH, PROP,
                         invoke=invoke_hist, replay=lambda ob: {'func': 'gradient_two_time_grids', 'inputs': {}}))
+        T.append(Target('param/history-propagators[M=%d]' % M, 'system.ParameterizedSystem.get_propagators', scen_hist(M), post_hist_props, RH, PROP,
+                        invoke=invoke_hist_props, replay=lambda ob: {'func': 'gradient_two_time_grids', 'inputs': {}}))
     return T
